@@ -132,7 +132,7 @@ fn write_content(c: Cfg, w: Writer, content: &[u8]) -> Result<Emu, String> {
                 out_latch(&mut e, latch | 0x10);
             }
             let blk = crate::tapemodel::std_block(0xFF, content);
-            e.load_tape(Tape::Tap(VAsset::new(crate::tapemodel::tap_image(&[blk])).chunked(chunk))).map_err(|e| format!("{:?}", e))?;
+            e.load_tape(Tape::Tap(VAsset::new(crate::tapemodel::tap_image(&[blk])).chunked(chunk).eof_as_zero(content[1] & 1 == 1))).map_err(|e| format!("{:?}", e))?;
             let mut v = RegsView::default();
             v.pc = 0x0556;
             v.sp = 0xBF00;
@@ -169,14 +169,14 @@ fn write_content(c: Cfg, w: Writer, content: &[u8]) -> Result<Emu, String> {
                 Writer::SzxStored => szx(&s, &SzxOpts::default()),
                 _ => szx(&s, &SzxOpts { compressed: true, ..SzxOpts::default() }),
             };
-            let snap = if w == Writer::Sna { Snapshot::Sna(VAsset::new(file).chunked(chunk)) } else { Snapshot::Szx(VAsset::new(file).chunked(chunk)) };
+            let snap = if w == Writer::Sna { Snapshot::Sna(VAsset::new(file).chunked(chunk).eof_as_zero(content[1] & 1 == 1)) } else { Snapshot::Szx(VAsset::new(file).chunked(chunk).eof_as_zero(content[1] & 1 == 1)) };
             e.load_snapshot(snap).map_err(|e| format!("{:?}", e))?;
         }
         Writer::Scr => {
             if m128(c) {
                 out_latch(&mut e, latch);
             }
-            e.load_screen(Screen::Scr(VAsset::new(scr(content)).chunked(chunk))).map_err(|e| format!("{:?}", e))?;
+            e.load_screen(Screen::Scr(VAsset::new(scr(content)).chunked(chunk).eof_as_zero(content[1] & 1 == 1))).map_err(|e| format!("{:?}", e))?;
         }
     }
     Ok(e)
